@@ -72,7 +72,7 @@ def S(**kw):
 
 
 N_QUICK = 360
-N_THOROUGH = 16000
+N_THOROUGH = 48000
 
 SPECS = {
     "C01": S(profiles=[("core-mix", 0.75), ("decor", 0.25)], projection="PExec",
